@@ -124,7 +124,8 @@ class Condition(ConvertAnnotation):
 
     def cond_name(self) -> str:
         """Get the name of this condition"""
-        return self.name or self.f.__name__
+        # (not every callable has a `__name__`: `functools.partial`, `operator.itemgetter`, callable objects)
+        return self.name or getattr(self.f, '__name__', None) or repr(self.f)
 
     def _converter(self, inner_type: t.Union[Converter[t.Any], IntoConverter], *,
                    handlers: ConverterHandlers) -> ConditionalConverter[t.Any]:
